@@ -8,6 +8,7 @@ pub mod json;
 pub mod record;
 pub mod rng;
 pub mod selftest;
+pub mod sib;
 pub mod v1;
 pub mod v1gen;
 pub mod v2;
